@@ -10,7 +10,7 @@ PAUSE_REQ = (st.PAUSING, st.PAUSED)
 RESUME_REQ = (st.RUNNING, st.RESUMING)
 
 
-def outcome(sim):
+def outcome(sim, skip_outputs=()):
     if sim.status in (st.SUCCEEDED, st.FAILED, st.CANCELED):
         # compare what the provider obtains at the end: render on a copy (the explored state is untouched)
         cp = Sim.restore(sim.scn, sim.snapshot())
@@ -20,7 +20,10 @@ def outcome(sim):
     execd = sorted("%s:%s" % (r["id"], r.get("status")) for r in ws.sequence if r["id"] not in ENGINE_COMMANDS)
     errs = sorted(json.dumps({k: e.get(k) for k in ("message", "task_id", "task_transition_id")}, sort_keys=True)
                   for e in sim.c.errors)
-    return {"status": ws.status, "executed": execd, "errors": errs, "output": sim.c.get_workflow_output()}
+    out = sim.c.get_workflow_output()
+    if isinstance(out, dict) and skip_outputs:
+        out = {k: v for k, v in out.items() if k not in skip_outputs}
+    return {"status": ws.status, "executed": execd, "errors": errs, "output": out}
 
 
 class PauseTransparent(Monitor):
@@ -30,6 +33,17 @@ class PauseTransparent(Monitor):
     def __init__(self, scn, cfg):
         super(PauseTransparent, self).__init__(scn, cfg)
         self.stats = {"paused_steps": 0, "twin_steps": 0, "twin_endings_compared": 0, "resume_offers_compared": 0}
+        # output variables fed by concurrent writers may legitimately depend on launch order (as in C08)
+        from vx import refdef as rd
+        from vx.monitors.order import concurrent_writers
+
+        conc, _ = concurrent_writers(scn.wf)
+        self.skip_outputs = set()
+        for item in scn.wf.get("output") or []:
+            (k, v), = item.items()
+            ast = rd.parse_expr(v)
+            if ast[0] not in ("lit",) and not (ast[0] in ("ctx", "inc") and ast[1] not in conc):
+                self.skip_outputs.add(k)
 
     def init_ghost(self, sim):
         # phase: 0 = never paused, 1 = pause outstanding, 2 = resumed
@@ -184,7 +198,7 @@ class PauseTransparent(Monitor):
                              "after_partial_join_rerun": sim.h["rejoin"] or twin.h["rejoin"]},
                      "detail": {"twin_in_flight": twin.h["inflight"], "main_status": sim.status}}]
         self.stats["twin_endings_compared"] += 1
-        a, b = outcome(sim), outcome(twin)
+        a, b = outcome(sim, self.skip_outputs), outcome(twin, self.skip_outputs)
         if a != b:
             aspect = [k for k in ("status", "executed", "errors", "output") if a[k] != b[k]][0]
             sig = {"aspect": aspect, "after_partial_join_rerun": sim.h["rejoin"] or twin.h["rejoin"]}
